@@ -216,6 +216,20 @@ impl<'a> Subtable<'a> {
                         return Some(if g > 0xFFFF { 0 } else { g as u16 });
                     }
                 }
+                // groups that do not overlap describe one mapping in whatever order they are
+                // stored; a small table is scanned as well, so that this reader also serves
+                // tables whose groups are out of order (for a sorted table the scan finds nothing)
+                if n <= 512 {
+                    for i in 0..n {
+                        let at = 16 + 12 * i;
+                        let s = u32_at(d, at)?;
+                        let e = u32_at(d, at + 4)?;
+                        if s <= code && code <= e {
+                            let g = u32_at(d, at + 8)?.checked_add(code - s)?;
+                            return Some(if g > 0xFFFF { 0 } else { g as u16 });
+                        }
+                    }
+                }
                 Some(0)
             }
             _ => None,
